@@ -965,4 +965,12 @@ def run(ctx):
         # the column tables are lists of dicts that the writers (and the hybrid arm of the table builder itself) extend and edit in place: each call must build its own
         for rel_, n_ in ((API, 1), (VPI, 1), (DPI, 2), (TPI, 1)):
             lints.fresh_results(c, 'FRESH-TABLES', rel_, floor=n_, what='a column table')
-    ctx.run_rules([prop_tables, data_file, dump_file, tables, poscar, system_wrap, fresh_tables, flag_types])
+    # the unit strings of the style tables ('angstrom*angstrom/ps*g/mol') are evaluated by unitconvert.parse: ordinary precedence is the rule of C09, run here on the same source;
+    # scaled columns and the wrap go through the cell's cached reciprocal vectors: the cache rule of C01
+    from . import c09 as _c09
+    from .c01 import cache as box_cache
+
+    def _precedence(c):
+        _c09._MOD[0] = c.mod('atomman/unitconvert.py')
+        _c09.precedence(c)
+    ctx.run_rules([prop_tables, data_file, dump_file, tables, poscar, system_wrap, fresh_tables, flag_types, _precedence, box_cache])
